@@ -166,7 +166,7 @@ def run(ctx):
             # every documented way an assembly can be refused (each error path builds its own exception)
             from props.c07 import perturb
             case = perturb(rng, case, info, modes=["unused", "invalid-vector", "duplicate", "rc-duplicate",
-                                                    "palindrome", "missing", "invalid-module", "illegal-module", "same-object"])
+                                                    "palindrome", "missing", "invalid-module", "illegal-module", "cycle", "same-object"])
             ctx.note("refusal:" + case["mode"])
         if rng.random() < 0.25 and "mparts" in info:
             # an ambiguous base call (N) inside an overhang: the generic classes still accept the record
